@@ -279,6 +279,56 @@ def validate(rep, traces, module, cfg):
     return r, reached
 
 
+def big_crowd(rep, thorough):
+    """Window / Isolation with a very large number of addresses alive at once (12 000, more than any table bound a
+    refactoring might introduce): a drained address that comes back while the crowd passes through is still refused until its
+    own tokens have accrued - by exact arithmetic on its own history only."""
+    from fractions import Fraction
+    n = 0
+    for cap, rate, crowd in ((3, Fraction(1, 100), 12000), (1, Fraction(1, 2), 11000 if thorough else 0), (5, Fraction(1, 1000), 25000 if thorough else 0)):
+        if not crowd:
+            continue
+        with virtual([mwmod]) as loop:
+            rl = mwmod.RateLimiter(mwmod.RateLimitConfig(capacity=cap, refill_rate=float(rate), retry_after=9))
+            loop.call(rl.start)
+            victim = "10.200.0.1"
+            t0 = loop.time()
+            admitted = []                    # times at which the victim was admitted
+
+            def ask(ip):
+                ok, resp = loop.run_coro(rl.process_request("gemini://h.ex/", ip, None))
+                return ok
+            for _ in range(cap + 1):
+                if ask(victim):
+                    admitted.append(loop.time() - t0)
+            for k in range(crowd):
+                ask("10.%d.%d.%d" % (k >> 16, (k >> 8) & 255, k & 255))
+                if k % 3000 == 2999:
+                    loop.advance(0.25)
+                    if ask(victim):
+                        admitted.append(loop.time() - t0)
+            loop.advance(0.25)
+            for _ in range(cap):
+                if ask(victim):
+                    admitted.append(loop.time() - t0)
+            n += 1
+            # the property's bound for every window [s, e] of the victim's own admissions
+            for i in range(len(admitted)):
+                for j in range(i, len(admitted)):
+                    T = Fraction(admitted[j]).limit_denominator(1000) - Fraction(admitted[i]).limit_denominator(1000)
+                    if (j - i + 1) > cap + rate * T:
+                        rep.violation({"formula": "Window", "crowd": crowd},
+                                      "Window falsified with %d other addresses passing through: address %s was admitted %d times within %.2f s (capacity %d, refill %s/s: bound %.3f)" % (
+                                          crowd, victim, j - i + 1, float(T), cap, rate, float(cap + rate * T)), None)
+                        break
+                else:
+                    continue
+                break
+            if hasattr(rl, "stop"):
+                loop.run_coro(rl.stop())
+    rep.add("big_crowd_runs", n)
+
+
 def main(pid="C10"):
     rep = evidence.Report(pid, "model_checking")
     thorough = rep.tier == "thorough"
@@ -389,6 +439,11 @@ def main(pid="C10"):
         rep.assume("dyadic refill rates on a 4 s grid, so the implementation's float arithmetic is exact and equals the rational model")
         rep.assume("virtual clock replaces time.monotonic as seen by nauyaca.server.middleware and the event loop's time()")
         rep.set("exhaustive", False)
+        big_crowd(rep, thorough)
+        # the limiter inside the server start_server assembles, over real TLS sessions (PyOpenSSL layer), with the other
+        # components around it (spec/Chain.tla): what one address does never changes what another gets
+        from checks import chain
+        chain.main("C10", rep=rep, finish=False)
         # "as configured ... through to the running server": the command line front end (spec/Assembly.tla)
         from checks import assembly
         assembly.main("C10", rep=rep, finish=False)
